@@ -187,7 +187,7 @@ def replay_chunk(cases: List[Dict[str, Any]]):
         os.environ["TZ"] = tz
         time.tzset()
         try:
-            obs = run_traced(nodes, g_data(case["idata"]), g_ctx(case["ictx"]), detail=detail, mode=mode)
+            obs = run_traced(nodes, g_data(case["idata"]), g_ctx(case["ictx"]), detail=detail, mode=mode, prior_run=(h % 5 == 2))
         finally:
             os.environ["TZ"] = "UTC0"
             time.tzset()
